@@ -25,12 +25,12 @@ ctest --test-dir _build -j8 2>&1 | grep "tests passed\|tests failed" | head -2
 echo "== with change: demo"
 run_demo > $OUT/demo_with.txt 2>&1; RC1=$?
 tail -3 $OUT/demo_with.txt; echo "demo exit with change: $RC1"
-git stash -q -- src include
+git checkout -q -- src include   # (no git stash: the stash is shared between worktrees)
 cmake --build _build 2>&1 | tail -1
 echo "== without change: demo"
 run_demo > $OUT/demo_without.txt 2>&1; RC0=$?
 tail -2 $OUT/demo_without.txt; echo "demo exit without change: $RC0"
-git stash pop -q
+git apply $OUT/patch.diff
 echo "== checks against /repo with the patch applied"
 cd /verif
 git -C /repo apply $OUT/patch.diff || { echo "patch does not apply to /repo"; exit 2; }
